@@ -3,7 +3,7 @@
 set -e
 d=$(mktemp -d /tmp/mutXXXX)
 mkdir -p $d
-cp -r /repo/src $d/src
+rsync -a --exclude target --exclude .git /repo/ $d/
 sed -i "$2" $d/$1
 if diff -q /repo/$1 $d/$1 >/dev/null; then echo "MUTATION DID NOT APPLY"; rm -rf $d; exit 3; fi
 shift; shift
